@@ -14,6 +14,7 @@ must pass and the classifier is off, so a recurrence is a VIOLATION.
 
 import os
 import re
+from .core import Violation
 
 VERIF = os.path.dirname(os.path.dirname(os.path.abspath(__file__)))
 _PATH = os.path.join(VERIF, "known_findings.txt")
@@ -67,7 +68,17 @@ def run_pinned(pid, mod):
             continue
         try:
             res = fn()
-        except Exception as ex:  # a pinned reproducer that crashes reproduces the defect
+        except Violation as v:
+            res = f"[{v.kind}] {v.msg}"
+        except Exception as ex:
+            # a reproducer that crashes INSIDE the library reproduces the defect; an exception out of the
+            # reproducer's own code is a harness error (exit 2), not a finding
+            import os
+            import traceback
+            repo = os.path.join(os.environ.get("VERIF_REPO", "/repo"), "fibertree")
+            tb = traceback.extract_tb(ex.__traceback__)
+            if not tb or not os.path.abspath(tb[-1].filename).startswith(os.path.abspath(repo)):
+                raise
             res = f"{type(ex).__name__}: {ex}"
         if e["status"] == "open":
             if res:
